@@ -127,7 +127,7 @@ func runC20(p *Plan) {
 				}()
 				priv := reflect.New(e.Type)
 				priv.Elem().Set(DeepCopy(v))
-				err := e.Ins.SetWithBuffer(priv.Interface(), setTxt, &inspector.ByteBuffer{}, path...)
+				err := e.Ins.SetWithBuffer(priv.Interface(), setTxt, inspector.NewByteBuffer(0), path...)
 				if err != nil {
 					return "err " + serNoCap(priv.Elem())
 				}
@@ -186,7 +186,7 @@ func runC20(p *Plan) {
 				if err := e.Ins.Reset(priv.Interface()); err != nil {
 					return "err"
 				}
-				if err := e.Ins.CopyTo(sharedArg, priv.Interface(), &inspector.ByteBuffer{}); err != nil {
+				if err := e.Ins.CopyTo(sharedArg, priv.Interface(), inspector.NewByteBuffer(0)); err != nil {
 					return "err"
 				}
 				return serNoCap(priv.Elem())
@@ -205,7 +205,7 @@ func runC20(p *Plan) {
 		}},
 		&raceJob{name: "Assign", run: func() string {
 			var d string
-			inspector.AssignBuf(&d, 12345, &inspector.ByteBuffer{})
+			inspector.AssignBuf(&d, 12345, inspector.NewByteBuffer(0))
 			return d
 		}},
 		&raceJob{name: "GetInspector", run: func() string {
